@@ -95,6 +95,25 @@ pub fn actions() -> Vec<Action> {
     // min_utxo inside the input threshold: the first-round estimate decides whether the input resolves at all
     let thr = "party S;\nparty R;\ntx t(q: Int) {\n    input src {\n        from: S,\n        min_amount: fees + min_utxo(small) + min_utxo(change),\n    }\n    output small {\n        to: R,\n        amount: min_utxo(small),\n    }\n    output change {\n        to: S,\n        amount: src - fees - min_utxo(small),\n    }\n}\n";
     v.push(Action { name: "min_utxo-in-threshold", tx: lower(thr), args: args.clone(), direct: false });
+    // templates that reach the resolver with nothing (left) to bind: arguments applied upstream and an empty argument
+    // map, and the same with the inputs applied too (no query left) - every shortcut "nothing to do for this stage"
+    // in the resolver is taken by one of them
+    let pre = |tx: &tir::Tx, a: &ArgMap| -> tir::Tx {
+        let applied = tx3_tir::reduce::apply_args(tx.clone(), a).expect("arguments apply");
+        tx3_tir::reduce::reduce(applied).expect("reduces")
+    };
+    v.push(Action { name: "args-preapplied-3-outputs-min_utxo(last)", tx: pre(&lower(&outputs_src(3, Some(2))), &args), args: ArgMap::new(), direct: false });
+    v.push(Action { name: "args-preapplied-min_utxo-in-threshold", tx: pre(&lower(thr), &args), args: ArgMap::new(), direct: false });
+    v.push(Action { name: "args-preapplied-2-outputs", tx: pre(&lower(&outputs_src(2, None)), &args), args: ArgMap::new(), direct: false });
+    {
+        // no query left either: the input is bound to a fixed UTxO of 9 ADA that no store holds
+        let t = pre(&lower(&outputs_src(3, Some(2))), &args);
+        let own = tirb::utxo(UtxoRef { txid: vec![0x77; 32], index: 1 }, &base_address(1, 0), CanonicalAssets::from_naked_amount(9_000_000));
+        let mut m = BTreeMap::new();
+        m.insert("src".to_string(), HashSet::from([own]));
+        let t = tx3_tir::reduce::apply_inputs(t, &m).expect("inputs apply");
+        v.push(Action { name: "args-and-inputs-preapplied-3-outputs-min_utxo(last)", tx: t, args: ArgMap::new(), direct: false });
+    }
     // the instance may also have been used to compile constant templates directly
     let constant = crate::gen::tirgen::place(5, tir::Expression::None);
     let mut no_outputs = constant.clone();
@@ -284,8 +303,8 @@ impl Prop for C20 {
         format!(
             "explicit-state breadth-first search whose transition function is the implementation: state = history of resolutions replayed on a fresh \
              tx3_cardano::Compiler, state key = bytes of Compiler.latest_tx_body (the other fields are asserted unchanged at every transition); alphabet of \
-             13 actions (11 resolutions (templates with 0, 1, 2, 5 outputs, min_utxo of the first / last output, one failing in reduce, one with InputNotResolved, one \
-             failing in compile; 2 direct Compiler::compile calls on constant templates); depth {} ; 3 stores (ample, huge, tight) x 3 protocol-parameter sets (separate models). In every state every action is resolved on a replica \
+             17 actions (15 resolutions (templates with 0, 1, 2, 5 outputs, min_utxo of the first / last output, one failing in reduce, one with InputNotResolved, one \
+             failing in compile, a 1000-byte datum, min_utxo in a threshold, four templates whose arguments (and inputs) were applied upstream and that arrive with an empty argument map); 2 direct Compiler::compile calls on constant templates); depth {} ; 3 stores (ample, huge, tight) x 3 protocol-parameter sets (separate models). In every state every action is resolved on a replica \
              and its outcome (payload, hash, fee | error kind | panic) compared with the outcome on a fresh instance (itself reproduced 3 times). Every \
              transition executes the real resolve_tx, so model and implementation cannot diverge.",
             if tier.is_thorough() { 4 } else { 3 }
